@@ -7,10 +7,10 @@ from vx.extract import Fn, Impl, Raw, Rule, Unit
 
 SRC = 'tarpc/src/util.rs'
 RULES = [
-    Rule('R5:f64-cast-div', r'self\.len\(\) as f64 / usage_ratio_threshold', 'f64_div(usize_as_f64(self.len()), usage_ratio_threshold)',
+    Rule('R5:f64-cast-div', r'([\w.]+(?:\(\))?) as f64 / (\w+)', r'f64_div(usize_as_f64(\1), \2)',
          why='Verus has no usize->f64 cast and puts a precondition on f64 division; value-free models'),
     Rule('R5:f64-const', r'f64::MIN_POSITIVE', 'f64_min_positive()', why='associated float constant not supported by Verus'),
-    Rule('R5:f64-to-usize', r'\(cap as usize\)', '(f64_as_usize(cap))', why='Verus has no f64->usize cast; value-free model'),
+    Rule('R5:f64-to-usize', r'\((\w+) as usize\)', r'(f64_as_usize(\1))', why='Verus has no f64->usize cast; value-free model'),
 ]
 
 VOCAB = Raw('''
